@@ -1,0 +1,265 @@
+//! Verification-only seams (`--cfg woodpile_verif`).
+//!
+//! Stand-ins for the synchronisation primitives used by
+//! [`crate::AtomicBaseTime`], and accessors for the wall clock and for the
+//! file attributes read by [`crate::nfs_voucher`].  Each of them passes
+//! straight through to the standard library unless a test harness has
+//! registered hooks, in which case every atomic access, lock operation, clock
+//! read and file attribute read is routed through the harness.
+//!
+//! Nothing here changes the behaviour of the crate when no hook is registered.
+use std::sync::atomic::Ordering;
+use std::sync::OnceLock;
+use std::sync::PoisonError;
+use std::sync::TryLockError;
+
+/// Hooks for atomic accesses and lock operations.  `addr` identifies the
+/// atomic or mutex.  A method that returns `None` / `false` from
+/// [`SyncHooks::active`] asks for the plain standard library behaviour.
+pub trait SyncHooks: Sync {
+    /// Whether the calling thread is under the harness's control.
+    fn active(&self) -> bool;
+    /// Performs a load on behalf of the calling thread.
+    fn atomic_load(&self, addr: usize, real: &std::sync::atomic::AtomicU64, order: Ordering)
+        -> u64;
+    /// Performs a store on behalf of the calling thread.
+    fn atomic_store(
+        &self,
+        addr: usize,
+        real: &std::sync::atomic::AtomicU64,
+        value: u64,
+        order: Ordering,
+    );
+    /// Returns once the calling thread owns the (modelled) mutex.
+    fn mutex_lock(&self, addr: usize);
+    /// Returns whether the calling thread acquired the (modelled) mutex.
+    fn mutex_try_lock(&self, addr: usize) -> bool;
+    /// The calling thread released the mutex.
+    fn mutex_unlock(&self, addr: usize);
+}
+
+/// Hook for the wall clock.
+pub trait ClockHooks: Sync {
+    /// Returns the simulated current time, or `None` for the real clock.
+    fn now_utc(&self) -> Option<time::OffsetDateTime>;
+}
+
+/// Hooks for the file attributes `nfs_voucher` relies on.
+pub trait FileHooks: Sync {
+    /// Returns the device id to use for `file` (`real` is what `stat` said).
+    fn dev(&self, file: &std::fs::File, real: u64) -> u64;
+    /// Returns the change time to use for `file`, in milliseconds since the
+    /// epoch (`real` is what was computed from `stat`).
+    fn ctime_ms(&self, file: &std::fs::File, real: u64) -> u64;
+    /// `file` is about to be `stat`ed right after its times were set.
+    fn touched(&self, file: &std::fs::File);
+}
+
+static SYNC_HOOKS: OnceLock<&'static dyn SyncHooks> = OnceLock::new();
+static CLOCK_HOOKS: OnceLock<&'static dyn ClockHooks> = OnceLock::new();
+static FILE_HOOKS: OnceLock<&'static dyn FileHooks> = OnceLock::new();
+
+/// Registers the process-wide synchronisation hooks (once).
+pub fn register_sync_hooks(hooks: &'static dyn SyncHooks) {
+    assert!(SYNC_HOOKS.set(hooks).is_ok(), "hooks already registered");
+}
+
+/// Registers the process-wide clock hooks (once).
+pub fn register_clock_hooks(hooks: &'static dyn ClockHooks) {
+    assert!(CLOCK_HOOKS.set(hooks).is_ok(), "hooks already registered");
+}
+
+/// Registers the process-wide file hooks (once).
+pub fn register_file_hooks(hooks: &'static dyn FileHooks) {
+    assert!(FILE_HOOKS.set(hooks).is_ok(), "hooks already registered");
+}
+
+#[inline]
+fn sync_hooks() -> Option<&'static dyn SyncHooks> {
+    match SYNC_HOOKS.get() {
+        Some(hooks) if hooks.active() => Some(*hooks),
+        _ => None,
+    }
+}
+
+/// The (possibly simulated) current time, given the real one.
+pub fn now_utc(real: time::OffsetDateTime) -> time::OffsetDateTime {
+    now_utc_opt().unwrap_or(real)
+}
+
+/// The simulated current time, if the clock is simulated.
+pub fn now_utc_opt() -> Option<time::OffsetDateTime> {
+    CLOCK_HOOKS.get().and_then(|hooks| hooks.now_utc())
+}
+
+/// The (possibly simulated) device id of `file`.
+pub fn dev(file: &std::fs::File, real: u64) -> u64 {
+    match FILE_HOOKS.get() {
+        Some(hooks) => hooks.dev(file, real),
+        None => real,
+    }
+}
+
+/// The (possibly simulated) change time of `file`.
+pub fn ctime_ms(file: &std::fs::File, real: u64) -> u64 {
+    match FILE_HOOKS.get() {
+        Some(hooks) => hooks.ctime_ms(file, real),
+        None => real,
+    }
+}
+
+/// Tells the harness that `file`'s times were just set.
+pub fn touched(file: &std::fs::File) {
+    if let Some(hooks) = FILE_HOOKS.get() {
+        hooks.touched(file);
+    }
+}
+
+/// Stand-in for [`std::sync::atomic::AtomicU64`] (only `new`, `load`, `store`).
+#[derive(Debug)]
+pub struct AtomicU64 {
+    inner: std::sync::atomic::AtomicU64,
+}
+
+impl AtomicU64 {
+    /// See [`std::sync::atomic::AtomicU64::new`].
+    pub const fn new(value: u64) -> Self {
+        Self {
+            inner: std::sync::atomic::AtomicU64::new(value),
+        }
+    }
+
+    /// See [`std::sync::atomic::AtomicU64::load`].
+    #[inline]
+    pub fn load(&self, order: Ordering) -> u64 {
+        match sync_hooks() {
+            Some(hooks) => hooks.atomic_load(self as *const _ as usize, &self.inner, order),
+            None => self.inner.load(order),
+        }
+    }
+
+    /// See [`std::sync::atomic::AtomicU64::store`].
+    #[inline]
+    pub fn store(&self, value: u64, order: Ordering) {
+        match sync_hooks() {
+            Some(hooks) => hooks.atomic_store(self as *const _ as usize, &self.inner, value, order),
+            None => self.inner.store(value, order),
+        }
+    }
+}
+
+/// Stand-in for [`std::sync::Mutex`] (only what `AtomicBaseTime` uses).
+#[derive(Debug)]
+pub struct Mutex<T> {
+    inner: std::sync::Mutex<T>,
+}
+
+/// Stand-in for [`std::sync::MutexGuard`].
+#[derive(Debug)]
+pub struct MutexGuard<'a, T> {
+    inner: Option<std::sync::MutexGuard<'a, T>>,
+    addr: usize,
+    hooked: bool,
+}
+
+impl<T> Mutex<T> {
+    /// See [`std::sync::Mutex::new`].
+    pub const fn new(value: T) -> Self {
+        Self {
+            inner: std::sync::Mutex::new(value),
+        }
+    }
+
+    fn addr(&self) -> usize {
+        self as *const _ as *const u8 as usize
+    }
+
+    /// See [`std::sync::Mutex::lock`].
+    pub fn lock(&self) -> Result<MutexGuard<'_, T>, PoisonError<MutexGuard<'_, T>>> {
+        let addr = self.addr();
+        let hooked = match sync_hooks() {
+            Some(hooks) => {
+                hooks.mutex_lock(addr);
+                true
+            }
+            None => false,
+        };
+
+        match self.inner.lock() {
+            Ok(guard) => Ok(MutexGuard {
+                inner: Some(guard),
+                addr,
+                hooked,
+            }),
+            Err(poisoned) => Err(PoisonError::new(MutexGuard {
+                inner: Some(poisoned.into_inner()),
+                addr,
+                hooked,
+            })),
+        }
+    }
+
+    /// See [`std::sync::Mutex::try_lock`].
+    pub fn try_lock(&self) -> Result<MutexGuard<'_, T>, TryLockError<MutexGuard<'_, T>>> {
+        let addr = self.addr();
+        let hooked = match sync_hooks() {
+            Some(hooks) => {
+                if !hooks.mutex_try_lock(addr) {
+                    return Err(TryLockError::WouldBlock);
+                }
+                true
+            }
+            None => false,
+        };
+
+        match self.inner.try_lock() {
+            Ok(guard) => Ok(MutexGuard {
+                inner: Some(guard),
+                addr,
+                hooked,
+            }),
+            Err(TryLockError::Poisoned(poisoned)) => {
+                Err(TryLockError::Poisoned(PoisonError::new(MutexGuard {
+                    inner: Some(poisoned.into_inner()),
+                    addr,
+                    hooked,
+                })))
+            }
+            Err(TryLockError::WouldBlock) => {
+                assert!(!hooked, "verif: modelled mutex granted while really held");
+                Err(TryLockError::WouldBlock)
+            }
+        }
+    }
+
+    /// See [`std::sync::Mutex::clear_poison`].
+    pub fn clear_poison(&self) {
+        self.inner.clear_poison();
+    }
+}
+
+impl<T> std::ops::Deref for MutexGuard<'_, T> {
+    type Target = T;
+
+    fn deref(&self) -> &T {
+        self.inner.as_ref().expect("guard is live")
+    }
+}
+
+impl<T> std::ops::DerefMut for MutexGuard<'_, T> {
+    fn deref_mut(&mut self) -> &mut T {
+        self.inner.as_mut().expect("guard is live")
+    }
+}
+
+impl<T> Drop for MutexGuard<'_, T> {
+    fn drop(&mut self) {
+        // Release the real lock first, then tell the harness.
+        self.inner = None;
+        if self.hooked && !std::thread::panicking() {
+            if let Some(hooks) = sync_hooks() {
+                hooks.mutex_unlock(self.addr);
+            }
+        }
+    }
+}
